@@ -80,6 +80,15 @@ type Hist struct {
 	// since the last Reset (C12 excludes such histories).
 	NilUsed bool
 
+	// Last describes the most recent Write/ReadFrom/Shrink for the Op oracle.
+	Last struct {
+		Arg    int   // bytes offered (Write: len(p); ReadFrom: bytes the reader had)
+		N      int   // result
+		Given  int   // ReadFrom: bytes the reader handed out
+		BufLen int   // bytes buffered before the call (Shrink: parsed bytes W before the call)
+		Err    error
+	}
+
 	C       *engine.Chooser
 	St      *engine.Stats
 	Col     *engine.Collector
@@ -340,7 +349,9 @@ func RunParserHist(h *Hist, orc *Oracle) {
 	}
 
 	shrink := func() {
+		h.Last.BufLen = h.W()
 		delta := p.Shrink()
+		h.Last.N, h.Last.Err = delta, nil
 		track()
 		h.logOp(opShrink, 0, delta)
 		if delta < 0 || delta > h.W() {
@@ -388,7 +399,9 @@ outer:
 				if op > 0 {
 					q = rem[:op]
 				}
+				h.Last.BufLen = len(h.Stream) - h.Off
 				n, err := p.Write(q)
+				h.Last.Arg, h.Last.N, h.Last.Err = len(q), n, err
 				track()
 				h.logOp(opWrite, len(q), n)
 				if n < 0 || n > len(q) {
@@ -416,7 +429,9 @@ outer:
 				if op == 6 {
 					r.withEOF = true
 				}
+				h.Last.BufLen = len(h.Stream) - h.Off
 				n64, err := p.ReadFrom(r)
+				h.Last.Arg, h.Last.N, h.Last.Given, h.Last.Err = len(rem), int(n64), r.given, err
 				track()
 				h.logOp(opReadPlain+op-4, 0, int(n64))
 				if n64 < 0 || int(n64) > r.given {
